@@ -174,7 +174,7 @@ def classify_path(path_str: str, cwd: str) -> dict:
 # --------------------------------------------------------------------------- #
 
 PATH_CALLS = [("write_content", 7), ("validate_file", 5), ("atomic", 3), ("write_dry", 1), ("write_changes", 1),
-              ("write_normalize", 1), ("validate_path_fn", 1), ("cli_write", 1), ("cli_normalize", 1), ("cli_seal", 1), ("cli_hydrate", 1)]
+              ("write_normalize", 1), ("validate_path_fn", 1), ("cli_write", 1), ("cli_write_changes", 1), ("cli_normalize", 1), ("cli_seal", 1), ("cli_hydrate", 1)]
 
 
 def make_path_call(kind: str, p: str, root: str):
@@ -205,6 +205,8 @@ def make_path_call(kind: str, p: str, root: str):
         return lambda: validate_octave_path(p)
     if kind == "cli_write":
         return lambda: run_cli(["write", p, "--content", NEWDOC])
+    if kind == "cli_write_changes":
+        return lambda: run_cli(["write", p, "--changes", '{"A": 5}'])
     if kind in ("cli_normalize", "cli_seal"):
         return lambda: run_cli([kind[4:], os.path.join(root, "sb/top.oct.md"), "-o", p])
     if kind == "cli_hydrate":
